@@ -133,10 +133,16 @@ theorem lin_processMessage (env : PEnv) (orc : EvalOracles) (expr : Expr) (md : 
     -- evaluation: `open("/dev/null")`, `fork`, `waitpid`, `close`, `stat` only
     have hcE : Calls World.Harmless (evalMs env orc expr ms) :=
       calls_mono' (evalP_calls _ _ _ _) (by
-        rintro c (h | h | h | ⟨x, h⟩ | ⟨x, h⟩) <;> subst h <;> exact True.intro)
+        rintro c (h | h | h | ⟨x, h⟩ | ⟨x, h⟩)
+        · subst h; exact True.intro
+        · obtain ⟨_, _, rfl⟩ := Call.isFork_iff.1 h; exact True.intro
+        all_goals subst h; exact True.intro)
     have hcN : Calls NotOpenRd (evalMs env orc expr ms) :=
       calls_mono' (evalP_calls _ _ _ _) (by
-        rintro c (h | h | h | ⟨x, h⟩ | ⟨x, h⟩) <;> subst h <;> exact True.intro)
+        rintro c (h | h | h | ⟨x, h⟩ | ⟨x, h⟩)
+        · subst h; exact True.intro
+        · obtain ⟨_, _, rfl⟩ := Call.isFork_iff.1 h; exact True.intro
+        all_goals subst h; exact True.intro)
     refine wp_bind_mono (wp_inv_mono (World.whole_wp_and (World.lg_harmless hcE hcN hLG0)
       (World.wp_evalFoot (msgEnv env orc ms.path) expr ms.msg ms.flags w1))
       (fun w' h => inv0 w' (LPM.of_lg h.1 hlt rfl))) ?_
